@@ -184,6 +184,10 @@ structure Call where
   errCode : String
   errMessage : Bool
   errMetadata : Bool
+  stdoutBlank : Bool         -- the padding of stdout is white space AFTER the complete reply (not inside a string) …
+  stdoutGarbage : Bool       -- … followed, as the very last byte, by something that is not JSON
+  stderrBlank : Bool         -- the padding of stderr is white space after the complete error object
+  ignoresPipe : Bool         -- the plugin ignores SIGPIPE: it survives the host closing the pipe and exits with exitCode
   exitAt : Option Nat        -- ms after the start of the call; none = never
   pipesAt : Option Nat       -- ms; none = never
   ctxEnd : Option Nat        -- ms; the context is cancelled / expires then; none = never
@@ -209,6 +213,10 @@ structure Input where
   errCode : String
   errMessage : Bool
   errMetadata : Bool
+  stdoutBlank : Bool         -- the padding of stdout is white space AFTER the complete reply (not inside a string) …
+  stdoutGarbage : Bool       -- … followed, as the very last byte, by something that is not JSON
+  stderrBlank : Bool         -- the padding of stderr is white space after the complete error object
+  ignoresPipe : Bool         -- the plugin ignores SIGPIPE: it survives the host closing the pipe and exits with exitCode
   exitAt : Option Nat        -- ms; none = never
   pipesAt : Option Nat       -- ms; none = never
   ctxEnd : Option Nat        -- ms; the context is cancelled / expires then; none = never
@@ -226,7 +234,8 @@ def Call.toInput (c : Call) : Input :=
   { kind := .call, command := c.command, pluginName := c.pluginName, executable := c.executable,
     exitCode := c.exitCode, stdout := c.stdout, stdoutSize := c.stdoutSize, metadata := c.metadata,
     stderr := c.stderr, stderrSize := c.stderrSize, errCode := c.errCode, errMessage := c.errMessage,
-    errMetadata := c.errMetadata, exitAt := c.exitAt, pipesAt := c.pipesAt, ctxEnd := c.ctxEnd,
+    errMetadata := c.errMetadata, stdoutBlank := c.stdoutBlank, stdoutGarbage := c.stdoutGarbage,
+    stderrBlank := c.stderrBlank, ignoresPipe := c.ignoresPipe, exitAt := c.exitAt, pipesAt := c.pipesAt, ctxEnd := c.ctxEnd,
     cancel := c.cancel, probes := c.probes, limit := 0, steps := [], calls := [] }
 
 /-- what is observed of one call -/
@@ -258,7 +267,7 @@ structure Obs where
 /-- padding applies to a reply / to the message (else the metadata) of an error object only -/
 def effOutSize (i : Input) : Nat := if i.stdout == .reply then i.stdoutSize else 0
 def effErrSize (i : Input) : Nat :=
-  if i.stderr == .errorObject && (i.errMessage || i.errMetadata) then i.stderrSize else 0
+  if i.stderr == .errorObject && (i.errMessage || i.errMetadata || i.stderrBlank) then i.stderrSize else 0
 
 /-- the limit writer reports an error to the copying goroutine iff more than the limit arrives -/
 def over (limit : Option Nat) (size : Nat) : Bool :=
@@ -270,6 +279,16 @@ def over (limit : Option Nat) (size : Nat) : Bool :=
 def decodes : StdoutKind → Bool
   | .reply | .emptyObject | .jsonNull => true
   | _ => false
+
+/-- `json.Unmarshal(stdout, resp)` succeeds on what the plugin printed as a whole: a decodable value,
+possibly followed by white space - but by nothing else -/
+def outDecodes (i : Input) : Bool :=
+  decodes i.stdout && !(i.stdout == .reply && i.stdoutBlank && i.stdoutGarbage)
+
+/-- stderr arrives cut off in the middle of its JSON text: more than the limit, and the excess is not
+just white space after the complete error object (the limit writer keeps the first `limit` bytes, and
+`Output` hands them to `run` together with the copy error) -/
+def errCut (cfg : ExecCfg) (i : Input) : Bool := over cfg.stderrLimit (effErrSize i) && !i.stderrBlank
 
 /-- `RequestError.UnmarshalJSON`: "incomplete json" iff code, message and metadata are all absent -/
 def errorObjectComplete (i : Input) : Bool := i.errCode != "" || i.errMessage || i.errMetadata
@@ -296,14 +315,14 @@ def decide_ (cfg : ExecCfg) (i : Input) (w : WaitOut) : Res × String :=
     over cfg.stdoutLimit (effOutSize i) || over cfg.stderrLimit (effErrSize i)
   if failed then
     if !i.executable then (.executableFileError, "")          -- nothing ran, nothing on stderr
-    else if over cfg.stderrLimit (effErrSize i) then (.malformedPluginError, "")   -- truncated inside a string
+    else if errCut cfg i then (.malformedPluginError, "")     -- truncated inside a string
     else match i.stderr with
       | .empty => (.executableFileError, "")                  -- len(stderr) == 0
       | .errorObject =>
         if errorObjectComplete i then (.pluginError, i.errCode)  -- return re
         else (.malformedPluginError, "")                      -- "incomplete json"
       | .wrongType | .notJson => (.malformedPluginError, "")
-  else if !decodes i.stdout then (.malformedPluginError, "")  -- json.Unmarshal(stdout, resp)
+  else if !outDecodes i then (.malformedPluginError, "")      -- json.Unmarshal(stdout, resp)
   else if i.command == .getMetadata then
     match validateErr (seenMeta i) with
     | some _ => (.malformedPluginError, "")
@@ -333,10 +352,10 @@ def metadataDecision (m : Meta) (pluginName : String) : Res × String :=
 
 /-- what the host finds on stderr: nothing at all … -/
 def seenStderrEmpty (cfg : ExecCfg) (i : Input) : Bool :=
-  !i.executable || (!over cfg.stderrLimit (effErrSize i) && i.stderr == .empty)
+  !i.executable || (!errCut cfg i && i.stderr == .empty)
 /-- … or something that decodes into a complete error object with this code -/
 def seenStderrCode (cfg : ExecCfg) (i : Input) : Option String :=
-  if i.executable && !over cfg.stderrLimit (effErrSize i) && i.stderr == .errorObject && errorObjectComplete i
+  if i.executable && !errCut cfg i && i.stderr == .errorObject && errorObjectComplete i
   then some i.errCode else none
 
 def waitOf (cfg : ExecCfg) (i : Input) : WaitOut :=
@@ -347,8 +366,8 @@ def runCall (cfg : ExecCfg) (i : Input) : Obs :=
   let w := waitOf cfg i
   let r := decide_ cfg i w
   let returned := match r.1 with
-    | .ok => effOutSize i
-    | .pluginError => effErrSize i
+    | .ok => if i.stdoutBlank then 0 else effOutSize i        -- white space is not handed back
+    | .pluginError => if i.stderrBlank then 0 else effErrSize i
     | _ => 0
   { result := r.1, code := r.2,
     withinCap := decide (returned ≤ specCap),
@@ -398,7 +417,8 @@ def specMetaOk (i : Input) : Bool :=
 
 /-- the plugin printed its own structured error (and it fits under the cap) -/
 def printedStructured (i : Input) : Bool :=
-  i.executable && i.stderr == .errorObject && errorObjectComplete i && decide (effErrSize i ≤ specCap)
+  i.executable && i.stderr == .errorObject && errorObjectComplete i &&
+    (decide (effErrSize i ≤ specCap) || i.stderrBlank)
 
 /-- per-write checks of a limited writer started with `N` remaining -/
 def outsOk : Int → List WStep → List WOut → Bool
@@ -413,7 +433,7 @@ def outsOk : Int → List WStep → List WOut → Bool
 /-- the clauses about one call -/
 def callClauses (i : Input) (o : CallObs) : Clauses :=
   [ ("ok_only_if_clean_exit_and_reply_of_expected_shape",
-      !(o.result == .ok) || (exitedOk i && decodes i.stdout)),
+      !(o.result == .ok) || (exitedOk i && outDecodes i)),
     ("metadata_ok_only_if_validated_and_named_like_the_plugin",
       !(o.result == .ok && i.command == .getMetadata) || specMetaOk i),
     ("failing_process_gives_structured_or_typed_error",
